@@ -33,6 +33,7 @@ def dispatch (op : String) (args : List SExp) : Option OpResult :=
   | "etag.enc" => opEtagEnc args
   | "etag.dec" => opEtagDec args
   | "etag.rt" => opEtagRt args
+  | "etag.hdr" => opEtagHdr args
   | "href.enc" => opHrefEnc args
   | "href.dec" => opHrefDec args
   | "href.rt" => opHrefRt args
